@@ -360,6 +360,17 @@ def r6_package_walk(ctx):
     tgt = lp.ast.target
     need(isinstance(tgt, ast.Tuple) and len(tgt.elts) == 3 and all(isinstance(e, ast.Name) for e in tgt.elts), 'C07.R6: unrecognised os.walk target')
     dnames = tgt.elts[1].id
+    dpath = tgt.elts[0].id
+    # every path built inside the walk starts at the directory being walked (not at the root, which is the same thing on the first iteration only)
+    joins = [c for st in lp.ast.body for c in ast.walk(st) if isinstance(c, ast.Call) and ast.unparse(c.func) in ('join', 'os.path.join', 'path.join') and c.args]
+    rep.floor('C07.R6', 'paths joined inside the walk loop', len(joins), 2)
+    for c in joins:
+        ok = is_name(c.args[0], dpath)
+        need(ok or isinstance(c.args[0], ast.Name), 'C07.R6: base of %s is not a plain name' % ctx.src(c))
+        rep.ob('C07.R6', ctx.loc(f, c), ctx.src(c), ok,
+               'relative to the walked directory `%s`' % dpath if ok else
+               'the path is joined to `%s` instead of the walked directory `%s`: below the first level the file tested / yielded is not the one in the directory being visited '
+               '(the __init__.py of nested sub-packages is never yielded)' % (ctx.src(c.args[0]), dpath), anchor=q)
     entry, cut = graph.region_of_loop(g, lp)
     dom = ctx.dom(g, entry, cut)
     # the package test: a test mentioning a name defined from an expression that mentions '__init__.py'
@@ -707,6 +718,7 @@ from ..selftest import fire, silent      # noqa: E402
 SA = 'xdoctest/static_analysis.py'
 CO = 'xdoctest/core.py'
 VARIANTS = [
+    fire('subpackage-init-looked-up-under-the-root', 'C07.R6', (SA, "                        path = join(dpath, dname, '__init__.py')\n", "                        path = join(pkgpath, dname, '__init__.py')\n")),
     fire('block-label-rejects-trailing-blanks', 'C07.R9', ('xdoctest/docstr/docscrape_google.py', "') *::? *$'", "') *::?$'")),
     fire('generic-visit-with-fixed-field-list', 'C07.R8', (SA, "    # -- helpers ---\n", "    def generic_visit(self, node):\n        for field in ('body', 'orelse', 'handlers', 'finalbody'):\n            for child in getattr(node, field, None) or []:\n                self.visit(child)\n\n    # -- helpers ---\n")),
     fire('try-handlers-not-visited', 'C07.R8', (SA, "    # -- helpers ---\n", "    def visit_Try(self, node):\n        for child in node.body + node.orelse + node.finalbody:\n            self.visit(child)\n\n    # -- helpers ---\n")),
